@@ -70,6 +70,23 @@ Proof.
   apply flat_map_ext. intros j. f_equal. lia.
 Qed.
 
+Lemma subseq_refl {A} (l : list A) : subseq l l.
+Proof. induction l; [apply subseq_nil|apply subseq_keep; assumption]. Qed.
+Lemma subseq_nil_l {A} (l : list A) : subseq [] l.
+Proof. induction l; [apply subseq_nil|apply subseq_skip; assumption]. Qed.
+Lemma subseq_app {A} (a b c d : list A) : subseq a b -> subseq c d -> subseq (a ++ c) (b ++ d).
+Proof.
+  intros H. induction H; intros Hc; cbn [app]; [assumption| |].
+  - apply subseq_skip. auto.
+  - apply subseq_keep. auto.
+Qed.
+Lemma subseq_In {A} (a b : list A) : subseq a b -> forall x, In x a -> In x b.
+Proof.
+  intros H. induction H; intros y Hy; [assumption| |].
+  - right. auto.
+  - destruct Hy as [->|Hy]; [left; reflexivity|right; auto].
+Qed.
+
 Section PathP.
   Variable P : Type.
   Variable mid : P -> P -> P.
@@ -551,4 +568,317 @@ Section PathP.
         unfold Path.spec_path. rewrite Hm. reflexivity.
   Qed.
 
+  (** ---------- corollaries: what the outline looks like ---------- *)
+  Notation ends_at := (ends_at P).
+  Notation last_end := (last_end P).
+  Notation path_points := (path_points P).
+
+  Lemma last_end_snoc a e : last_end (a ++ [e]) = end_of P e.
+  Proof. unfold Path.last_end. rewrite rev_app_distr. reflexivity. Qed.
+
+  Lemma last_end_app a sg : sg <> [] -> last_end (a ++ sg) = last_end sg.
+  Proof.
+    intros H. destruct (exists_last H) as (l & e & ->).
+    rewrite app_assoc, !last_end_snoc. reflexivity.
+  Qed.
+
+  Lemma drain_last : forall q k, q <> [] -> exists pre x, drain P mid q k = pre ++ [QuadTo x k].
+  Proof.
+    induction q as [|a rest IH]; intros k H; [congruence|].
+    cbn [drain]. destruct rest as [|b rest'].
+    - exists [], a. reflexivity.
+    - destruct (IH k) as (pre & x & E); [discriminate|]. rewrite E.
+      exists (QuadTo a (mid a b) :: pre), x. reflexivity.
+  Qed.
+
+  (** conditions under which a drawing rule exists for [p] after the off-curves [q] *)
+  Definition drawable (n : nat) (p : point) : Prop :=
+    match ptyp p with
+    | Move | Off => False
+    | Line => n = 0
+    | Curve => n <= 2
+    | QCurve => True
+    end.
+
+  Lemma segment_ends q p : drawable (length q) p -> ends_at (segment q p) p.
+  Proof.
+    unfold drawable, Path.ends_at, Path.segment. destruct (ptyp p) eqn:Ht; intros H; try contradiction.
+    - split; [discriminate|reflexivity].
+    - destruct q as [|a [|b [|c q]]]; try (split; [discriminate|reflexivity]).
+      cbn [length] in H. lia.
+    - destruct q as [|a q]; [split; [discriminate|reflexivity]|].
+      rewrite <- drain_quad_run.
+      destruct (drain_last (a :: q) (pos p)) as (pre & x & E); [discriminate|].
+      rewrite E. split; [destruct pre; discriminate|]. apply last_end_snoc.
+  Qed.
+
+  Lemma drain_points : forall q k, subseq (q ++ [k]) (path_points (drain P mid q k) ++ match q with [] => [k] | _ => [] end).
+  Proof.
+    induction q as [|a rest IH]; intros k; [apply subseq_refl|].
+    cbn [drain]. specialize (IH k). destruct rest as [|b rest'].
+    - cbn. apply subseq_refl.
+    - cbn [app]. unfold Path.path_points in *. cbn [flat_map el_points app].
+      apply subseq_keep. apply subseq_skip. rewrite app_nil_r in IH. rewrite app_nil_r.
+      exact IH.
+  Qed.
+
+  Lemma segment_points q p : drawable (length q) p ->
+    subseq (q ++ [pos p]) (path_points (segment q p)).
+  Proof.
+    unfold drawable, Path.segment. destruct (ptyp p) eqn:Ht; intros H; try contradiction.
+    - destruct q; [apply subseq_refl|discriminate].
+    - destruct q as [|a [|b [|c q]]]; try apply subseq_refl. cbn [length] in H. lia.
+    - destruct q as [|a q]; [apply subseq_refl|].
+      rewrite <- drain_quad_run. pose proof (drain_points (a :: q) (pos p)) as D.
+      rewrite app_nil_r in D. exact D.
+  Qed.
+
+  Lemma wf_on n p r : offc p = false -> wf n (p :: r) -> drawable n p /\ wf 0 r.
+  Proof.
+    unfold drawable. cbn [wf]. rewrite offc_typ. destruct (ptyp p); try discriminate; tauto.
+  Qed.
+
+  Lemma wf_off n p r : offc p = true -> wf n (p :: r) -> wf (S n) r.
+  Proof. cbn [wf]. rewrite offc_typ. destruct (ptyp p); try discriminate; tauto. Qed.
+
+  Lemma segs_rec_ends : forall l q, wf (length q) l ->
+    Forall2 ends_at (segs_rec q l) (filter onc l).
+  Proof.
+    induction l as [|p r IH]; intros q H; [constructor|].
+    cbn [segs_rec filter]. unfold Path.onc at 1. destruct (offc p) eqn:Hp; cbn [negb].
+    - apply IH. rewrite app_length. cbn [length]. rewrite Nat.add_1_r. eapply wf_off; eauto.
+    - destruct (wf_on _ _ _ Hp H) as [Hd Hr]. constructor; [apply segment_ends; exact Hd|].
+      apply (IH []). exact Hr.
+  Qed.
+
+  Lemma path_points_app a b : path_points (a ++ b) = path_points a ++ path_points b.
+  Proof. apply flat_map_app. Qed.
+
+  Lemma segs_rec_points : forall l q, wf (length q) l ->
+    subseq (q ++ map pos l) (path_points (concat (segs_rec q l)) ++ pending q l).
+  Proof.
+    induction l as [|p r IH]; intros q H.
+    - cbn. rewrite app_nil_r. apply subseq_refl.
+    - cbn [segs_rec pending map]. destruct (offc p) eqn:Hp.
+      + replace (q ++ pos p :: map pos r) with ((q ++ [pos p]) ++ map pos r)
+          by (rewrite <- app_assoc; reflexivity).
+        apply IH. rewrite app_length. cbn [length]. rewrite Nat.add_1_r. eapply wf_off; eauto.
+      + destruct (wf_on _ _ _ Hp H) as [Hd Hr]. cbn [concat].
+        rewrite path_points_app, <- app_assoc.
+        replace (q ++ pos p :: map pos r) with ((q ++ [pos p]) ++ ([] ++ map pos r))
+          by (rewrite <- app_assoc; reflexivity).
+        apply subseq_app; [apply segment_points; exact Hd|]. apply (IH []). exact Hr.
+  Qed.
+
+  Lemma legal_open_pending p0 r : ptyp p0 = Move -> legal (types (p0 :: r)) -> pending [] r = [].
+  Proof.
+    pose proof MAXU_big as HM.
+    intros Hm H. destruct (legal_build _ H) as (b & cnt & Hrun & Hw).
+    rewrite types_cons in Hrun. cbn [run] in Hrun. unfold step in Hrun.
+    assert (Hop : is_closed (types (p0 :: r)) = false) by (rewrite is_closed_cons, Hm; reflexivity).
+    unfold Path.ptyp in Hm. destruct p0 as [[ty sm] xy]. cbn [fst snd] in *. subst ty.
+    apply (run_wf r [] b cnt) in Hrun. destruct Hrun as [_ Hc].
+    destruct (N.eq_dec cnt 0) as [Hz|Hz].
+    - destruct (pending [] r); [reflexivity|]. cbn [length] in Hc. lia.
+    - assert (Hpos : (0 < cnt)%N) by lia. destruct (Hw Hpos) as [Hcl _]. congruence.
+  Qed.
+
+  (** open contour: starts at the move point; one segment per later on-curve point, in order *)
+  Theorem on_curve_order_open p0 r : ptyp p0 = Move -> legal (types (p0 :: r)) ->
+    exists segs, to_path P mid (p0 :: r) = Ok (MoveTo (pos p0) :: concat segs) /\
+                 Forall2 ends_at segs (filter onc r).
+  Proof.
+    intros Hm Hl. pose proof (legal_wf_open _ _ Hm Hl) as Hwf.
+    exists (segs_rec [] r). split.
+    - rewrite to_path_open by assumption. unfold Path.outline_from. rewrite segments_rec. reflexivity.
+    - apply (segs_rec_ends r []). exact Hwf.
+  Qed.
+
+  (** closed contour with an on-curve point: starts at an on-curve point [s]; one segment per
+      on-curve point in contour order after [s], wrapping around, the last one being [s] *)
+  Theorem on_curve_order_closed c :
+    is_closed (types c) = true -> forallb offc c = false -> legal (types c) ->
+    exists s p segs, nth_error c s = Some p /\ onc p = true /\
+      to_path P mid c = Ok (MoveTo (pos p) :: concat segs) /\
+      Forall2 ends_at segs (filter onc (rot (S s) c)).
+  Proof.
+    intros Hcl Hall Hl. destruct (split_last_on _ Hall) as (b & p & T & -> & Hp & HT).
+    pose proof (legal_wf_closed _ _ _ Hp HT Hcl Hl) as Hwf.
+    exists (length b), p, (segs_rec [] (T ++ b ++ [p])). split; [|split; [|split]].
+    - rewrite nth_error_app2 by lia. rewrite Nat.sub_diag. reflexivity.
+    - apply onc_true. exact Hp.
+    - rewrite to_path_closed by assumption. unfold Path.outline_from. rewrite segments_rec. reflexivity.
+    - rewrite rot_split. apply (segs_rec_ends _ []). exact Hwf.
+  Qed.
+
+  Lemma combine_rot1 (a : P) r0 l z : a :: r0 = l ++ [z] ->
+    combine (a :: r0) (r0 ++ [a]) = combine l (tl (l ++ [z])) ++ [(z, a)].
+  Proof.
+    intros Hl. replace (r0 ++ [a]) with (tl (l ++ [z]) ++ [a]) by (rewrite <- Hl; reflexivity).
+    rewrite Hl. destruct l as [|h l'].
+    - reflexivity.
+    - cbn [app tl]. rewrite <- (combine_snoc (h :: l') (l' ++ [z]) z a).
+      + reflexivity.
+      + rewrite app_length. cbn [length]. lia.
+  Qed.
+
+  (** closed contour: the last segment comes back to the start point *)
+  Theorem returns_to_start c :
+    c <> [] -> is_closed (types c) = true -> legal (types c) ->
+    exists s rest, to_path P mid c = Ok (MoveTo s :: rest) /\ rest <> [] /\ last_end rest = Some s.
+  Proof.
+    intros Hne Hcl Hl. destruct (forallb offc c) eqn:Hall.
+    - (* off-curves only *)
+      rewrite (path_meets_spec c Hl). destruct c as [|p0 r]; [congruence|].
+      unfold Path.spec_path. rewrite last_on_all_off by exact Hall.
+      cbn [forallb] in Hall. apply andb_prop in Hall. destruct Hall as [H0 _].
+      rewrite offc_typ in H0.
+      assert (E : match ptyp p0 with
+                  | Move => outline_from P mid (pos p0) r
+                  | _ => spec_offcurve_only P mid (map pos (p0 :: r)) end
+                  = spec_offcurve_only P mid (map pos (p0 :: r)))
+        by (destruct (ptyp p0); try discriminate; reflexivity).
+      rewrite E. clear E. cbn [map]. set (a := pos p0). set (r0 := map pos r).
+      destruct (@exists_last _ (a :: r0)) as (l & z & Hlz); [discriminate|].
+      unfold Path.spec_offcurve_only. replace (rot 1 (a :: r0)) with (r0 ++ [a]) by reflexivity.
+      rewrite quad_pairs_spec. rewrite (combine_rot1 a r0 l z Hlz).
+      rewrite map_app, rev_app_distr. cbn [map rev app fst snd].
+      eexists; eexists; split; [reflexivity|].
+      unfold quad_pairs. rewrite (combine_rot1 a r0 l z Hlz), map_app. cbn [map fst snd].
+      split; [destruct (map _ (combine l _)); discriminate|]. apply last_end_snoc.
+    - destruct (on_curve_order_closed c Hcl Hall Hl) as (s & p & segs & Hn & Ho & Hp & HF).
+      exists (pos p), (concat segs). split; [exact Hp|].
+      assert (Hrot : exists pre, filter onc (rot (S s) c) = pre ++ [p]).
+      { assert (Hs : s < length c) by (apply nth_error_Some; congruence).
+        destruct (nth_error_split c s Hn) as (l1 & l2 & Ec & Hlen). subst c s.
+        replace (l1 ++ p :: l2) with ((l1 ++ [p]) ++ l2) by (rewrite <- app_assoc; reflexivity).
+        unfold rot. assert (E : S (length l1) = length (l1 ++ [p])) by (rewrite app_length; cbn; lia).
+        rewrite E, skipn_app, skipn_all, Nat.sub_diag, firstn_app, firstn_all, Nat.sub_diag.
+        cbn [skipn firstn app]. rewrite app_nil_r, app_assoc, filter_app. cbn [filter]. rewrite Ho. eauto. }
+      destruct Hrot as (pre & Hrot). rewrite Hrot in HF.
+      apply Forall2_app_inv_r in HF. destruct HF as (s1 & s2 & _ & H2 & ->).
+      inversion H2 as [|sg ? ? ? Hsg Hnil]; subst. inversion Hnil; subst.
+      destruct Hsg as [Hsg1 Hsg2]. rewrite concat_app. cbn [concat]. rewrite app_nil_r.
+      split; [destruct (concat s1); [exact Hsg1|discriminate]|].
+      rewrite last_end_app by exact Hsg1. exact Hsg2.
+  Qed.
+
+  Lemma quad_pairs_points : forall (a b : list P), length a <= length b ->
+    subseq a (path_points (quad_pairs a b)).
+  Proof.
+    induction a as [|x a IH]; intros b H; [apply subseq_nil|].
+    destruct b as [|y b]; [cbn [length] in H; lia|].
+    unfold quad_pairs. cbn [combine map fst snd]. unfold Path.path_points. cbn [flat_map el_points app].
+    apply subseq_keep, subseq_skip. apply IH. cbn [length] in H. lia.
+  Qed.
+
+  Lemma rot_0 {A} (l : list A) : rot 0 l = l.
+  Proof. unfold rot. cbn [skipn firstn]. apply app_nil_r. Qed.
+
+  (** every point of the contour appears in the path, in (cyclic) contour order *)
+  Theorem no_point_lost c : legal (types c) ->
+    exists k path, to_path P mid c = Ok path /\ subseq (map pos (rot k c)) (path_points path).
+  Proof.
+    intros Hl. destruct c as [|p0 r].
+    - exists 0, []. split; [reflexivity|apply subseq_nil].
+    - destruct (forallb offc (p0 :: r)) eqn:Hall.
+      + exists 0. rewrite rot_0. unfold Path.to_path. rewrite Hall. cbn [nonempty andb].
+        rewrite offcurve_only_spec by discriminate.
+        eexists; split; [reflexivity|]. cbn [map]. set (a := pos p0). set (r0 := map pos r).
+        unfold Path.spec_offcurve_only. replace (rot 1 (a :: r0)) with (r0 ++ [a]) by reflexivity.
+        rewrite quad_pairs_spec.
+        destruct (@exists_last _ (a :: r0)) as (l & z & Hlz); [discriminate|].
+        rewrite (combine_rot1 a r0 l z Hlz), map_app, rev_app_distr. cbn [map rev app].
+        unfold Path.path_points. cbn [flat_map el_points app]. apply subseq_skip.
+        apply quad_pairs_points. rewrite app_length. cbn [length]. lia.
+      + destruct (is_closed (types (p0 :: r))) eqn:Hcl.
+        * destruct (split_last_on _ Hall) as (b & p & T & Ec & Hp & HT). rewrite Ec in *.
+          pose proof (legal_wf_closed _ _ _ Hp HT Hcl Hl) as Hwf.
+          exists (S (length b)). rewrite rot_split, to_path_closed by assumption.
+          eexists; split; [reflexivity|]. unfold Path.outline_from. rewrite segments_rec.
+          unfold Path.path_points. cbn [flat_map el_points app]. apply subseq_skip.
+          pose proof (segs_rec_points (T ++ b ++ [p]) [] Hwf) as Hs.
+          replace (T ++ b ++ [p]) with ((T ++ b) ++ p :: []) in Hs at 3 by (rewrite <- app_assoc; reflexivity).
+          rewrite pending_on in Hs by (auto). cbn [map app] in Hs. rewrite app_nil_r in Hs. exact Hs.
+        * rewrite is_closed_cons in Hcl.
+          assert (Hm : ptyp p0 = Move) by (destruct (ptyp p0); try discriminate; reflexivity).
+          pose proof (legal_wf_open _ _ Hm Hl) as Hwf.
+          exists 0. rewrite rot_0, to_path_open by assumption.
+          eexists; split; [reflexivity|]. unfold Path.outline_from. rewrite segments_rec.
+          unfold Path.path_points. cbn [flat_map el_points app map]. apply subseq_keep.
+          pose proof (segs_rec_points r [] Hwf) as Hs.
+          rewrite (legal_open_pending _ _ Hm Hl), app_nil_r in Hs. exact Hs.
+  Qed.
+
+  Corollary no_point_lost_In c path : legal (types c) -> to_path P mid c = Ok path ->
+    forall p, In p c -> In (pos p) (path_points path).
+  Proof.
+    intros Hl Hp p Hin. destruct (no_point_lost c Hl) as (k & path' & Hp' & Hs).
+    rewrite Hp in Hp'. inversion Hp'; subst path'.
+    eapply subseq_In; [exact Hs|]. apply in_map. unfold rot.
+    rewrite <- (firstn_skipn k c) in Hin. apply in_app_or in Hin. apply in_or_app. tauto.
+  Qed.
+
+  Theorem never_errors_on_legal c : legal (types c) -> exists path, to_path P mid c = Ok path.
+  Proof. intros H. eexists. apply path_meets_spec. exact H. Qed.
+
+  (** the start point: the move point of an open contour, an on-curve point of a closed one *)
+  Theorem starts_at c : legal (types c) -> forallb offc c = false ->
+    exists s p rest, nth_error c s = Some p /\ onc p = true /\
+      (is_closed (types c) = false -> s = 0) /\
+      to_path P mid c = Ok (MoveTo (pos p) :: rest).
+  Proof.
+    intros Hl Hall. destruct (is_closed (types c)) eqn:Hcl.
+    - destruct (on_curve_order_closed c Hcl Hall Hl) as (s & p & segs & Hn & Ho & Hp & _).
+      exists s, p, (concat segs). repeat split; try assumption. discriminate.
+    - destruct c as [|p0 r]; [discriminate|]. rewrite is_closed_cons in Hcl.
+      assert (Hm : ptyp p0 = Move) by (destruct (ptyp p0); try discriminate; reflexivity).
+      destruct (on_curve_order_open p0 r Hm Hl) as (segs & Hp & _).
+      exists 0, p0, (concat segs). repeat split; try assumption.
+      unfold Path.onc. rewrite offc_typ, Hm. reflexivity.
+  Qed.
+
 End PathP.
+
+(** ---------- transforms ---------- *)
+Section AffineP.
+  Variable F : Type.
+  Variable add mul : F -> F -> F.
+
+  Lemma transform_formula (t : affine F) x y :
+    transform F add mul t (x, y) =
+    spec_transform F add mul (x_scale t) (xy_scale t) (yx_scale t) (y_scale t) (x_offset t) (y_offset t) x y.
+  Proof. reflexivity. Qed.
+
+  Lemma transform_eq_kurbo (t : affine F) p :
+    kurbo_apply F add mul (to_kurbo F t) p = transform F add mul t p.
+  Proof. reflexivity. Qed.
+
+  Lemma affine_roundtrip (t : affine F) : from_kurbo F (to_kurbo F t) = t.
+  Proof. destruct t; reflexivity. Qed.
+
+  Lemma kurbo_roundtrip (k : kaffine F) : to_kurbo F (from_kurbo F k) = k.
+  Proof. destruct k; reflexivity. Qed.
+End AffineP.
+
+(** over exact arithmetic the transform is the affine action of the matrix
+    [[x_scale yx_scale] [xy_scale y_scale]] with offset (x_offset, y_offset) *)
+Definition zcompose (t2 t1 : affine Z) : affine Z :=
+  {| x_scale := x_scale t2 * x_scale t1 + yx_scale t2 * xy_scale t1;
+     xy_scale := xy_scale t2 * x_scale t1 + y_scale t2 * xy_scale t1;
+     yx_scale := x_scale t2 * yx_scale t1 + yx_scale t2 * y_scale t1;
+     y_scale := xy_scale t2 * yx_scale t1 + y_scale t2 * y_scale t1;
+     x_offset := x_scale t2 * x_offset t1 + yx_scale t2 * y_offset t1 + x_offset t2;
+     y_offset := xy_scale t2 * x_offset t1 + y_scale t2 * y_offset t1 + y_offset t2 |}%Z.
+
+Lemma transform_Z_action (t2 t1 : affine Z) p :
+  transform Z Z.add Z.mul (zcompose t2 t1) p
+  = transform Z Z.add Z.mul t2 (transform Z Z.add Z.mul t1 p).
+Proof.
+  destruct t1, t2, p as [x y]. unfold transform, zcompose. cbn -[Z.add Z.mul].
+  f_equal; ring.
+Qed.
+
+Lemma transform_Z_identity p :
+  transform Z Z.add Z.mul (mkaffine 1 0 0 1 0 0)%Z p = p.
+Proof. destruct p as [x y]. unfold transform. cbn -[Z.add Z.mul]. f_equal; ring. Qed.
